@@ -558,6 +558,9 @@ func (g *Gen) vBgLayer(final bool) string {
 }
 
 func (g *Gen) vBackground() string {
+	if g.known && g.chance(1, 60) { // N21: panics
+		return "padding-box border-box border-box"
+	}
 	n := 1
 	if g.chance(1, 5) {
 		n = 2 + g.r.Intn(2)
